@@ -64,13 +64,15 @@ fn check_orders(rep: &mut Report, rng: &mut Rng, observer: &Peer, air: &str, net
 
 /// hand-written scripts for the merge paths the random generator reaches rarely: streams filled by `ap` (whose states exist in every
 /// peer's data) folded with remote calls in the body, so that different data know different results INSIDE the same iterations
-fn directed_scripts(ids: &[String]) -> Vec<String> {
+pub fn directed_scripts(ids: &[String]) -> Vec<String> {
     let (a, b, c, d) = (&ids[0], &ids[1], &ids[2], &ids[3]);
     vec![
         format!(r#"(seq (seq (ap "{b}" $w) (ap "{c}" $w)) (fold $w p (par (call p ("svc" "str_1") [p]) (next p))))"#),
         format!(r#"(seq (seq (ap "{b}" $w) (seq (ap "{c}" $w) (ap "{d}" $w))) (fold $w p (par (seq (call p ("svc" "str_1") [p] x) (call "{a}" ("svc" "echo_2") [x])) (next p))))"#),
         format!(r#"(seq (seq (ap "{b}" $w) (ap "{c}" $w)) (seq (fold $w p (par (call p ("svc" "str_1") [p] $r) (next p))) (seq (canon "{a}" $r #r) (call "{d}" ("svc" "echo_2") [#r]))))"#),
         format!(r#"(seq (seq (call "{a}" ("svc" "str_1") [] $w) (ap "{c}" $w)) (fold $w p (par (seq (call "{b}" ("svc" "echo_2") [p]) (call "{c}" ("svc" "echo_3") [p])) (next p))))"#),
+        format!(r#"(seq (seq (call "{a}" ("svc" "peer_1") [] $w) (call "{d}" ("svc" "peer_2") [] $w)) (fold $w p (par (seq (call p ("svc" "str_3") [p] x) (call "{b}" ("svc" "echo_4") [x])) (next p))))"#),
+        format!(r#"(seq (par (call "{b}" ("svc" "str_1") [] $w) (call "{c}" ("svc" "str_2") [] $w)) (fold $w v (par (seq (call "{d}" ("svc" "echo_3") [v] y) (call "{a}" ("svc" "echo_4") [y])) (next v))))"#),
         format!(r#"(seq (seq (ap 1 $n) (ap 2 $n)) (fold $n i (par (xor (call "{b}" ("svc" "fail_1") [i]) (call "{c}" ("svc" "str_2") [i])) (seq (call "{d}" ("svc" "str_3") [i]) (next i)))))"#),
     ]
 }
